@@ -116,11 +116,13 @@ func verifFind(peers []*core.PeerInfo, p *core.PeerInfo) *core.PeerInfo {
 // address, port and completion flag they announced; a peer that announces
 // again as complete is returned once, complete.
 func VerifStoreRoundTrip() {
+	verif.Option("panic_is_violation", 1)
 	r := &verifRedis{sets: map[string][]string{}, rotate: verif.Choice("srandmember_rotation", 2)}
 	clk := clock.NewMock()
 	clk.Set(time.Unix(1000, 0))
 	s := verifStore(r, clk)
-	h := core.InfoHashFixture()
+	var h core.InfoHash
+	h[3] = 0xab
 
 	p1 := verifSymPeer("p", false)
 	p2 := verifSymPeer("q", false)
